@@ -42,17 +42,18 @@ func (s Stack) Apply(opt *Option, profile string) (string, error) {
 		return "", fmt.Errorf("no profile to stack")
 	}
 	t := opt.ArgList[0]
+	stacked := opt.ArgList
 	cleanRules := regCleanStakedRules
 	if t != "X" {
 		cleanRules = append(util.ToRegexRepl([]string{
 			`(?m)^.*(|P|p)(|U|u)(|i)x,.*$`, ``, // Remove X transition rules
 		}), regCleanStakedRules...)
 	} else {
-		delete(opt.ArgMap, t)
+		stacked = opt.ArgList[1:]
 	}
 
 	res := ""
-	for name := range opt.ArgMap {
+	for _, name := range util.RemoveDuplicate(stacked) {
 		stackedProfile := prebuild.RootApparmord.Join(name).MustReadFileAsString()
 		m := regRules.FindStringSubmatch(stackedProfile)
 		if len(m) < 2 {
